@@ -444,3 +444,7 @@ def run(ctx):
     name_binding(ctx, 'R19.7', ['nbdime.config', 'nbdime.args'] if ctx.tier == 'quick' else ['nbdime.'])
     swallowed_value_errors(ctx, 'R19.8')
     redeclared_traits(ctx, 'R19.9')
+
+
+from .extra import with_extra  # noqa: E402
+run = with_extra('C19', run)
